@@ -17,7 +17,7 @@ RULE = (
 )
 ASSUMPTIONS = [
     "input CVR lists are non-empty and contain no phantoms (make_phantoms is what creates them); bounds satisfy the stated inequalities",
-    "contest dict keys equal contest ids; one stratum (stratified audits raise NotImplementedError by design)",
+    "one stratum (stratified audits raise NotImplementedError by design); a contest is identified by its id (make_phantoms is also given dicts keyed otherwise)",
     "scoring relations judged at absolute tolerance 1e-12",
 ]
 
@@ -123,6 +123,12 @@ def evaluate(case, out):
         contests = Contest.from_dict_of_dicts({c: {"name": c, "cards": case["contests"][c], "choice_function": "PLURALITY",
                                                     "n_winners": 1, "candidates": ["A", "B"], "winner": ["A"]} for c in cids})
         audit = Audit.from_dict({"strata": {"s": {"max_cards": case["max_cards"], "use_style": us}}})
+        if (len(case["cards"]) + case["max_cards"]) % 4 == 0:
+            # the caller keeps its Contest objects under other keys than their ids (by row, by name ...): a contest is
+            # identified by its id, which is what the records list
+            contests = {f"row {i}": con for i, con in enumerate(contests.values())}
+            out.cls("contests-keyed-by-something-else-than-their-id")
+        by_id = {con.id: con for con in contests.values()}
         cvrs = [CVR(id=f"r{i}", votes={c: {"A": 1} for c in style}) for i, style in enumerate(case["cards"])]
         before = [(c, copy.deepcopy(c.votes)) for c in cvrs]
         counts = {c: sum(1 for s in case["cards"] if c in s) for c in cids}
@@ -158,8 +164,8 @@ def evaluate(case, out):
         else:
             out.expect(len(res) == case["max_cards"], "total-records!=stratum-bound", lambda: (len(res), case["max_cards"]))
         for c in cids:
-            out.expect(contests[c].cards == bound[c], "contest.cards", lambda: (c, contests[c].cards, bound[c]))
-            out.expect(int(contests[c].cvrs) == counts[c], "contest.cvrs", lambda: (c, contests[c].cvrs, counts[c]))
+            out.expect(by_id[c].cards == bound[c], "contest.cards", lambda: (c, by_id[c].cards, bound[c]))
+            out.expect(int(by_id[c].cvrs) == counts[c], "contest.cvrs", lambda: (c, by_id[c].cvrs, counts[c]))
         if len(ph) > 0:
             out.cls("phantoms-needed")
             if not us or len(set(short.values())) > 1:
